@@ -134,6 +134,13 @@ def topologies():
     s["system"]["ups"] = ["up0", "up1"]
     s["storages"]["st0"] = {"base_storage_need": (1, "TB")}
     T["server_shared_by_two_journeys"] = s
+    # local series spanning the daylight-saving transitions of the usage pattern's country
+    s = base_spec(); s["ups"]["up0"].update({"start": "2025-10-25T21", "values": [1, 2, 3, 4, 5, 6, 7, 8, 9, 10]})
+    s["storages"]["st0"] = {"base_storage_need": (1, "TB")}
+    T["dst_fall_back"] = s
+    s = base_spec(); s["ups"]["up0"].update({"start": "2025-03-29T22", "values": [1, 2, 3, 4, 5, 6, 7, 8]})
+    s["storages"]["st0"] = {"base_storage_need": (1, "TB")}
+    T["dst_spring_forward"] = s
     return T
 
 
